@@ -307,7 +307,15 @@ func retryableFault(r *rand.Rand, provider string) Action {
 func anyFault(r *rand.Rand, provider string) Action {
 	a := goodAction(r, provider)
 	a.Variant = r.Intn(1 << 20)
-	switch k := r.Intn(14); {
+	switch k := r.Intn(15); {
+	case k == 14:
+		// the passing JSON sits in a typed part that is not an answer; the answer parts
+		// themselves are empty or absent
+		if provider == "openai" {
+			a.Transport = "wrongparts"
+		} else {
+			a.Transport = "emptyitems"
+		}
 	case k < 3:
 		return retryableFault(r, provider)
 	case k < 6:
@@ -468,6 +476,16 @@ func render(provider string, a Action, kind string) (status int, body []byte, se
 	case "wrongrole":
 		role := []string{"user", "system", "developer", "tool", "", "Assistant"}[a.Variant%6]
 		body = mustJSON(m{"items": []any{m{"type": "message", "role": role, "content": ans.Text}}})
+	case "wrongparts":
+		pt := []string{"reasoning_text", "refusal", "input_text", "summary_text"}[a.Variant%4]
+		parts := []any{m{"type": pt, "text": ans.Text}}
+		switch (a.Variant / 4) % 3 {
+		case 1:
+			parts = append([]any{m{"type": "output_text", "text": ""}}, parts...)
+		case 2:
+			parts = append(parts, m{"type": "output_text", "text": "   "})
+		}
+		body = mustJSON(m{"id": "resp_3", "items": []any{m{"type": "message", "role": "assistant", "content": parts}}})
 	case "badcontent":
 		c := []any{17, nil, true, 0.5}[a.Variant%4]
 		if provider == "openai" {
